@@ -246,7 +246,25 @@ func digests(ds []ocispec.Descriptor) []string {
 // raw store access of the harness (never through the wrapper, never through notation-go)
 
 func (s *session) rawPush(mt string, b []byte) ocispec.Descriptor {
+	return s.rawPushAs(mt, b, false)
+}
+
+// rawPushAs stores b; with lying set, the descriptor handed to the store claims (in its optional
+// fields, which no store verifies) to be a Notary signature: what a referrer is follows from its
+// manifest's content, never from what the pusher's descriptor said about it.
+func (s *session) rawPushAs(mt string, b []byte, lying bool) ocispec.Descriptor {
 	d := ocispec.Descriptor{MediaType: mt, Digest: digest.FromBytes(b), Size: int64(len(b))}
+	if lying {
+		lie := d
+		lie.ArtifactType = typeNotation
+		lie.Annotations = map[string]string{"io.cncf.notary.x509chain.thumbprint#S256": "[]"}
+		if err := s.inner.Push(s.ctx, lie, bytes.NewReader(b)); err != nil && !errors.Is(err, errdef.ErrAlreadyExists) {
+			s.rt.Fatalf("harness: raw push of %s (%d bytes): %v", mt, len(b), err)
+		}
+		s.blobs[d.Digest] = b
+		s.rec.Class("pushed-with-lying-descriptor", 1)
+		return d
+	}
 	if err := s.inner.Push(s.ctx, d, bytes.NewReader(b)); err != nil && !errors.Is(err, errdef.ErrAlreadyExists) {
 		s.rt.Fatalf("harness: raw push of %s (%d bytes): %v", mt, len(b), err)
 	}
@@ -351,7 +369,7 @@ func (s *session) pushHand(h handSpec) *referrer {
 	if h.legacy {
 		mt, how = mtLegacy, howHandLegacy
 	}
-	d := s.rawPush(mt, b)
+	d := s.rawPushAs(mt, b, rapid.IntRange(0, 2).Draw(s.rt, "lyingDescriptor") == 0)
 	delete(s.blobs, d.Digest) // manifests are not signature blobs (and 4 MiB ones need not be kept)
 	r := &referrer{id: len(s.refs), how: how, kind: h.kind, manifest: d, artifactType: h.artifactType,
 		subject: h.subject, layers: h.layers, annotations: ann}
